@@ -55,6 +55,7 @@ pub fn register_helpers(e: &mut Engine) {
     use steel::steel_vm::register_fn::RegisterFn;
     // progress mark: survives the death of the child, so a crash or hang is attributed to one call
     e.register_fn("vf-mark", |t: isize| crate::util::child_mark(&t.to_string()));
+    e.register_value("#%verif-stack-depth", steel::verif::stack_depth_builtin());
 }
 
 pub fn enc_result(r: Result<Vec<SteelVal>, steel::SteelErr>, out: String) -> Value {
